@@ -7,9 +7,20 @@
   themselves are NOT verified: that each of the 20 listed algorithms is a program over this interface is in the trusted
   base and is what the differential run (harness/algos.cpp) validates.
 
-  Property theorems only; helper lemmas live in SeqLemmas / StoreLemmas / ElemOrder.
+  The `algo_<name>_on_views` / `algo_<name>_on_elements` corollaries (reverse, fill, copy_n, copy, move, copy_backward,
+  swap_ranges, transform, find / find_if, equal, accumulate, is_sorted, lexicographical_compare, remove / remove_if) rest
+  on the HAND TRANSCRIPTIONS of the libstdc++ loops in MultiProofs/AlgoProgs.lean: that libstdc++'s code is that interface
+  program is trusted (validated by the differential run), what is proved is the list-level meaning of each program
+  (AlgoLemmas.lean) and, through `proxy_refines_seq` / `elements_refines_seq`, its in-place effect on any well-formed
+  injective view.  sort, stable_sort, partial_sort, nth_element, rotate, partition, unique are not transcribed: they
+  remain validated by the differential run only (their correctness on views follows from `proxy_refines_seq` as soon as
+  one grants that they are interface programs).
+
+  Property theorems only; helper lemmas live in SeqLemmas / AlgoViews / AlgoLemmas / StoreLemmas / ElemOrder.
 -/
 import MultiProofs.SeqLemmas
+import MultiProofs.AlgoLemmas
+import MultiProofs.AlgoViews
 
 namespace Multi
 namespace C03
@@ -63,6 +74,208 @@ theorem revProg_rows (v : View) (hwf : v.lay.WF) (hne : v.lay ≠ []) (hinj : v.
     ∃ m', (revProg (List α) (rowsVal v m).length 0 (rowsVal v m).length).runRows v m = some (m', 0) ∧
       rowsVal v m' = (rowsVal v m).reverse ∧ ∀ a, ¬ v.InImage a → m' a = m a := by
   exact proxy_refines_seq v hwf hne hinj _ (revProg_typed _ _ _ _) m _ 0 (revProg_list (rowsVal v m))
+
+/-! ### the transcribed libstdc++ loops (AlgoProgs.lean) on the rows of a view
+
+Each corollary is `proxy_refines_seq` + the list-level meaning of the program (AlgoLemmas.lean) at `xs := rowsVal v m`.
+Positions are offsets from `begin()`; `N = (rowsVal v m).length` is the number of rows. -/
+
+/-- `std::reverse(v.begin(), v.end())` (restatement of `revProg_rows`) -/
+theorem algo_reverse_on_views (v : View) (hwf : v.lay.WF) (hne : v.lay ≠ []) (hinj : v.Injective) (m : Mem α) :
+    ∃ m', (revProg (List α) (rowsVal v m).length 0 (rowsVal v m).length).runRows v m = some (m', 0) ∧
+      rowsVal v m' = (rowsVal v m).reverse ∧ ∀ a, ¬ v.InImage a → m' a = m a :=
+  revProg_rows v hwf hne hinj m
+
+/-- `std::fill(v.begin(), v.end(), x)` with `x` a saved row -/
+theorem algo_fill_on_views (v : View) (hwf : v.lay.WF) (hne : v.lay ≠ []) (hinj : v.Injective) (m : Mem α)
+    (x : List α) (hx : x.length = (boxIndices v.exts.tail).length) :
+    ∃ m', (fillProg x (rowsVal v m).length 0).runRows v m = some (m', ((rowsVal v m).length : Int)) ∧
+      rowsVal v m' = List.replicate (rowsVal v m).length x ∧ ∀ a, ¬ v.InImage a → m' a = m a := by
+  refine rows_on_views v hwf hne hinj m _ (fillProg_typed _ x hx _ _) _
+    (fun ys => ys = List.replicate (rowsVal v m).length x) ⟨_, ?_, rfl⟩
+  simpa using fillProg_list x [] (rowsVal v m) []
+
+/-- `std::copy_n(vals.begin(), N, v.begin())` from a sequence of saved rows (also `v = {row₀, row₁, …}`) -/
+theorem algo_copy_n_on_views (v : View) (hwf : v.lay.WF) (hne : v.lay ≠ []) (hinj : v.Injective) (m : Mem α)
+    (vals : List (List α)) (hlen : vals.length = (rowsVal v m).length)
+    (hrow : ∀ r ∈ vals, r.length = (boxIndices v.exts.tail).length) :
+    ∃ m', (storeProg vals 0).runRows v m = some (m', (vals.length : Int)) ∧
+      rowsVal v m' = vals ∧ ∀ a, ¬ v.InImage a → m' a = m a := by
+  refine rows_on_views v hwf hne hinj m _ (storeProg_typed _ vals hrow _) _ (fun ys => ys = vals) ⟨_, ?_, rfl⟩
+  simpa using storeProg_list vals [] (rowsVal v m) [] hlen.symm
+
+/-- `std::copy(v.begin() + s, v.begin() + s + n, v.begin() + d)` between two blocks of rows of one view -/
+theorem algo_copy_on_views (v : View) (hwf : v.lay.WF) (hne : v.lay ≠ []) (hinj : v.Injective) (m : Mem α)
+    (n s d : Nat) (hs : s + n ≤ (rowsVal v m).length) (hd : d + n ≤ (rowsVal v m).length) (hsafe : d ≤ s ∨ s + n ≤ d) :
+    ∃ m', (copyProg n s d).runRows v m = some (m', ((d + n : Nat) : Int)) ∧
+      ((rowsVal v m').length = (rowsVal v m).length ∧
+        (∀ i, i < n → (rowsVal v m')[d + i]? = (rowsVal v m)[s + i]?) ∧
+        (∀ j, (j < d ∨ d + n ≤ j) → (rowsVal v m')[j]? = (rowsVal v m)[j]?)) ∧
+      ∀ a, ¬ v.InImage a → m' a = m a :=
+  rows_on_views v hwf hne hinj m _ (copyProg_typed _ _ _ _) _
+    (fun ys => ys.length = (rowsVal v m).length ∧ (∀ i, i < n → ys[d + i]? = (rowsVal v m)[s + i]?) ∧
+      (∀ j, (j < d ∨ d + n ≤ j) → ys[j]? = (rowsVal v m)[j]?))
+    (copyProg_list (rowsVal v m) n s d hs hd hsafe)
+
+/-- `std::move(v.begin() + k, v.end(), v.begin())` (rows of trivially movable elements: the same loop as `std::copy`):
+    the instance `s = k`, `d = 0`, `n = N − k` of `algo_copy_on_views` -/
+theorem algo_move_on_views (v : View) (hwf : v.lay.WF) (hne : v.lay ≠ []) (hinj : v.Injective) (m : Mem α)
+    (k : Nat) (hk : k ≤ (rowsVal v m).length) :
+    ∃ m', (copyProg ((rowsVal v m).length - k) k 0).runRows v m = some (m', (((rowsVal v m).length - k : Nat) : Int)) ∧
+      ((rowsVal v m').length = (rowsVal v m).length ∧
+        (∀ i, i < (rowsVal v m).length - k → (rowsVal v m')[i]? = (rowsVal v m)[k + i]?) ∧
+        (∀ j, (rowsVal v m).length - k ≤ j → (rowsVal v m')[j]? = (rowsVal v m)[j]?)) ∧
+      ∀ a, ¬ v.InImage a → m' a = m a := by
+  have := algo_copy_on_views v hwf hne hinj m ((rowsVal v m).length - k) k 0 (by omega) (by omega) (Or.inl (by omega))
+  simpa using this
+
+/-- `std::copy_backward(v.begin() + sEnd − n, v.begin() + sEnd, v.begin() + dEnd)` -/
+theorem algo_copy_backward_on_views (v : View) (hwf : v.lay.WF) (hne : v.lay ≠ []) (hinj : v.Injective) (m : Mem α)
+    (n sEnd dEnd : Nat) (hs1 : n ≤ sEnd) (hs2 : sEnd ≤ (rowsVal v m).length) (hd1 : n ≤ dEnd)
+    (hd2 : dEnd ≤ (rowsVal v m).length) (hsafe : sEnd ≤ dEnd ∨ dEnd + n ≤ sEnd) :
+    ∃ m', (copyBackwardProg n sEnd dEnd).runRows v m = some (m', ((dEnd - n : Nat) : Int)) ∧
+      ((rowsVal v m').length = (rowsVal v m).length ∧
+        (∀ i, i < n → (rowsVal v m')[dEnd - n + i]? = (rowsVal v m)[sEnd - n + i]?) ∧
+        (∀ j, (j < dEnd - n ∨ dEnd ≤ j) → (rowsVal v m')[j]? = (rowsVal v m)[j]?)) ∧
+      ∀ a, ¬ v.InImage a → m' a = m a :=
+  rows_on_views v hwf hne hinj m _ (copyBackwardProg_typed _ _ _ _) _
+    (fun ys => ys.length = (rowsVal v m).length ∧ (∀ i, i < n → ys[dEnd - n + i]? = (rowsVal v m)[sEnd - n + i]?) ∧
+      (∀ j, (j < dEnd - n ∨ dEnd ≤ j) → ys[j]? = (rowsVal v m)[j]?))
+    (copyBackwardProg_list (rowsVal v m) n sEnd dEnd hs1 hs2 hd1 hd2 hsafe)
+
+/-- `std::swap_ranges(v.begin() + a, v.begin() + a + n, v.begin() + b)` on two disjoint blocks of rows -/
+theorem algo_swap_ranges_on_views (v : View) (hwf : v.lay.WF) (hne : v.lay ≠ []) (hinj : v.Injective) (m : Mem α)
+    (n a b : Nat) (ha : a + n ≤ (rowsVal v m).length) (hb : b + n ≤ (rowsVal v m).length)
+    (hdis : a + n ≤ b ∨ b + n ≤ a) :
+    ∃ m', (swapRangesProg n a b).runRows v m = some (m', ((b + n : Nat) : Int)) ∧
+      ((rowsVal v m').length = (rowsVal v m).length ∧
+        (∀ i, i < n → (rowsVal v m')[a + i]? = (rowsVal v m)[b + i]? ∧ (rowsVal v m')[b + i]? = (rowsVal v m)[a + i]?) ∧
+        (∀ j, (j < a ∨ a + n ≤ j) → (j < b ∨ b + n ≤ j) → (rowsVal v m')[j]? = (rowsVal v m)[j]?)) ∧
+      ∀ a, ¬ v.InImage a → m' a = m a :=
+  rows_on_views v hwf hne hinj m _ (swapRangesProg_typed _ _ _ _) _
+    (fun ys => ys.length = (rowsVal v m).length ∧
+      (∀ i, i < n → ys[a + i]? = (rowsVal v m)[b + i]? ∧ ys[b + i]? = (rowsVal v m)[a + i]?) ∧
+      (∀ j, (j < a ∨ a + n ≤ j) → (j < b ∨ b + n ≤ j) → ys[j]? = (rowsVal v m)[j]?))
+    (swapRangesProg_list (rowsVal v m) n a b ha hb hdis)
+
+/-- `std::transform(v.begin() + s, v.begin() + s + n, v.begin() + d, f)` with `f` mapping rows to rows of the same extents -/
+theorem algo_transform_on_views (v : View) (hwf : v.lay.WF) (hne : v.lay ≠ []) (hinj : v.Injective) (m : Mem α)
+    (f : List α → List α)
+    (hf : ∀ x, x.length = (boxIndices v.exts.tail).length → (f x).length = (boxIndices v.exts.tail).length)
+    (n s d : Nat) (hs : s + n ≤ (rowsVal v m).length) (hd : d + n ≤ (rowsVal v m).length) (hsafe : d ≤ s ∨ s + n ≤ d) :
+    ∃ m', (transformProg f n s d).runRows v m = some (m', ((d + n : Nat) : Int)) ∧
+      ((rowsVal v m').length = (rowsVal v m).length ∧
+        (∀ i, i < n → (rowsVal v m')[d + i]? = ((rowsVal v m)[s + i]?).map f) ∧
+        (∀ j, (j < d ∨ d + n ≤ j) → (rowsVal v m')[j]? = (rowsVal v m)[j]?)) ∧
+      ∀ a, ¬ v.InImage a → m' a = m a :=
+  rows_on_views v hwf hne hinj m _ (transformProg_typed _ f hf _ _ _) _
+    (fun ys => ys.length = (rowsVal v m).length ∧ (∀ i, i < n → ys[d + i]? = ((rowsVal v m)[s + i]?).map f) ∧
+      (∀ j, (j < d ∨ d + n ≤ j) → ys[j]? = (rowsVal v m)[j]?))
+    (transformProg_list f (rowsVal v m) n s d hs hd hsafe)
+
+/-- `std::transform(v.begin(), v.end(), v.begin(), f)`: in place over the whole view, the rows become `map f` -/
+theorem algo_transform_inplace_on_views (v : View) (hwf : v.lay.WF) (hne : v.lay ≠ []) (hinj : v.Injective) (m : Mem α)
+    (f : List α → List α)
+    (hf : ∀ x, x.length = (boxIndices v.exts.tail).length → (f x).length = (boxIndices v.exts.tail).length) :
+    ∃ m', (transformProg f (rowsVal v m).length 0 0).runRows v m = some (m', ((rowsVal v m).length : Int)) ∧
+      rowsVal v m' = (rowsVal v m).map f ∧ ∀ a, ¬ v.InImage a → m' a = m a :=
+  rows_on_views v hwf hne hinj m _ (transformProg_typed _ f hf _ _ _) _ (fun ys => ys = (rowsVal v m).map f)
+    ⟨_, transformProg_map f (rowsVal v m), rfl⟩
+
+/-- `std::find_if(v.begin(), v.end(), p)` (and `std::find`): the position of the first row satisfying `p`, `N` if none;
+    nothing is written -/
+theorem algo_find_on_views (v : View) (hwf : v.lay.WF) (hne : v.lay ≠ []) (hinj : v.Injective) (m : Mem α)
+    (p : List α → Bool) :
+    ∃ m', (findProg p (rowsVal v m).length 0).runRows v m = some (m', (((rowsVal v m).findIdx p : Nat) : Int)) ∧
+      rowsVal v m' = rowsVal v m ∧ ∀ a, ¬ v.InImage a → m' a = m a :=
+  rows_on_views v hwf hne hinj m _ (findProg_typed _ p _ _) _ (fun ys => ys = rowsVal v m)
+    ⟨_, findProg_list p (rowsVal v m), rfl⟩
+
+/-- `std::equal(v.begin() + a, v.begin() + a + n, v.begin() + b)` (1 = true) -/
+theorem algo_equal_on_views (v : View) (hwf : v.lay.WF) (hne : v.lay ≠ []) (hinj : v.Injective) (m : Mem α)
+    (eq : List α → List α → Bool) (n a b : Nat) (ha : a + n ≤ (rowsVal v m).length) (hb : b + n ≤ (rowsVal v m).length) :
+    ∃ m', (equalProg eq n a b).runRows v m
+        = some (m', if ((seg (rowsVal v m) a n).zip (seg (rowsVal v m) b n)).all (fun q => eq q.1 q.2) then 1 else 0) ∧
+      rowsVal v m' = rowsVal v m ∧ ∀ a, ¬ v.InImage a → m' a = m a :=
+  rows_on_views v hwf hne hinj m _ (equalProg_typed _ eq _ _ _) _ (fun ys => ys = rowsVal v m)
+    ⟨_, equalProg_list eq (rowsVal v m) n a b ha hb, rfl⟩
+
+/-- `std::accumulate(v.begin(), v.end(), init, op)` with an integer accumulator -/
+theorem algo_accumulate_on_views (v : View) (hwf : v.lay.WF) (hne : v.lay ≠ []) (hinj : v.Injective) (m : Mem α)
+    (op : Int → List α → Int) (init : Int) :
+    ∃ m', (accumulateProg op (rowsVal v m).length 0 init).runRows v m = some (m', (rowsVal v m).foldl op init) ∧
+      rowsVal v m' = rowsVal v m ∧ ∀ a, ¬ v.InImage a → m' a = m a :=
+  rows_on_views v hwf hne hinj m _ (accumulateProg_typed _ op _ _ _) _ (fun ys => ys = rowsVal v m)
+    ⟨_, accumulateProg_list op (rowsVal v m) init, rfl⟩
+
+/-- `std::is_sorted(v.begin(), v.end(), lt)` (1 = true) -/
+theorem algo_is_sorted_on_views (v : View) (hwf : v.lay.WF) (hne : v.lay ≠ []) (hinj : v.Injective) (m : Mem α)
+    (lt : List α → List α → Bool) :
+    ∃ m', (isSortedProg lt (rowsVal v m).length).runRows v m = some (m', if adjSorted lt (rowsVal v m) then 1 else 0) ∧
+      rowsVal v m' = rowsVal v m ∧ ∀ a, ¬ v.InImage a → m' a = m a :=
+  rows_on_views v hwf hne hinj m _ (isSortedProg_typed _ lt _) _ (fun ys => ys = rowsVal v m)
+    ⟨_, isSortedProg_list lt (rowsVal v m), rfl⟩
+
+/-- `std::lexicographical_compare(v.begin() + a, v.begin() + a + n1, v.begin() + b, v.begin() + b + n2, lt)` (1 = true) -/
+theorem algo_lexicographical_compare_on_views (v : View) (hwf : v.lay.WF) (hne : v.lay ≠ []) (hinj : v.Injective)
+    (m : Mem α) (lt : List α → List α → Bool) (n1 n2 a b : Nat) (ha : a + n1 ≤ (rowsVal v m).length)
+    (hb : b + n2 ≤ (rowsVal v m).length) :
+    ∃ m', (lexCompareProg lt n1 n2 a b).runRows v m
+        = some (m', if listLex lt (seg (rowsVal v m) a n1) (seg (rowsVal v m) b n2) then 1 else 0) ∧
+      rowsVal v m' = rowsVal v m ∧ ∀ a, ¬ v.InImage a → m' a = m a :=
+  rows_on_views v hwf hne hinj m _ (lexCompareProg_typed _ lt _ _ _ _) _ (fun ys => ys = rowsVal v m)
+    ⟨_, lexCompareProg_list lt (rowsVal v m) n1 n2 a b ha hb, rfl⟩
+
+/-- `std::remove_if(v.begin(), v.end(), p)` (and `std::remove`): the kept rows, in order, form the prefix up to the
+    returned position -/
+theorem algo_remove_on_views (v : View) (hwf : v.lay.WF) (hne : v.lay ≠ []) (hinj : v.Injective) (m : Mem α)
+    (p : List α → Bool) :
+    ∃ m', (removeProg p (rowsVal v m).length).runRows v m
+        = some (m', ((((rowsVal v m).filter fun x => !p x).length : Nat) : Int)) ∧
+      ((rowsVal v m').length = (rowsVal v m).length ∧
+        (rowsVal v m').take ((rowsVal v m).filter fun x => !p x).length = (rowsVal v m).filter fun x => !p x) ∧
+      ∀ a, ¬ v.InImage a → m' a = m a :=
+  rows_on_views v hwf hne hinj m _ (removeProg_typed _ p _) _
+    (fun ys => ys.length = (rowsVal v m).length ∧
+      ys.take ((rowsVal v m).filter fun x => !p x).length = (rowsVal v m).filter fun x => !p x)
+    (removeProg_list p (rowsVal v m))
+
+/-! ### … and on the flat `elements()` range (no typing condition: elements are single cells) -/
+
+theorem algo_reverse_on_elements (v : View) (hwf : v.lay.WF) (hne : v.lay ≠ []) (hinj : v.Injective) (m : Mem α) :
+    ∃ m', (revProg α (elemsVal v m).length 0 (elemsVal v m).length).runElems v m = some (m', 0) ∧
+      elemsVal v m' = (elemsVal v m).reverse ∧ ∀ a, ¬ v.InImage a → m' a = m a :=
+  elems_on_views v hwf hne hinj m _ _ (fun ys => ys = (elemsVal v m).reverse) ⟨_, revProg_list (elemsVal v m), rfl⟩
+
+theorem algo_fill_on_elements (v : View) (hwf : v.lay.WF) (hne : v.lay ≠ []) (hinj : v.Injective) (m : Mem α) (x : α) :
+    ∃ m', (fillProg x (elemsVal v m).length 0).runElems v m = some (m', ((elemsVal v m).length : Int)) ∧
+      elemsVal v m' = List.replicate (elemsVal v m).length x ∧ ∀ a, ¬ v.InImage a → m' a = m a := by
+  refine elems_on_views v hwf hne hinj m _ _ (fun ys => ys = List.replicate (elemsVal v m).length x) ⟨_, ?_, rfl⟩
+  simpa using fillProg_list x [] (elemsVal v m) []
+
+theorem algo_copy_on_elements (v : View) (hwf : v.lay.WF) (hne : v.lay ≠ []) (hinj : v.Injective) (m : Mem α)
+    (n s d : Nat) (hs : s + n ≤ (elemsVal v m).length) (hd : d + n ≤ (elemsVal v m).length) (hsafe : d ≤ s ∨ s + n ≤ d) :
+    ∃ m', (copyProg n s d).runElems v m = some (m', ((d + n : Nat) : Int)) ∧
+      ((elemsVal v m').length = (elemsVal v m).length ∧
+        (∀ i, i < n → (elemsVal v m')[d + i]? = (elemsVal v m)[s + i]?) ∧
+        (∀ j, (j < d ∨ d + n ≤ j) → (elemsVal v m')[j]? = (elemsVal v m)[j]?)) ∧
+      ∀ a, ¬ v.InImage a → m' a = m a :=
+  elems_on_views v hwf hne hinj m _ _
+    (fun ys => ys.length = (elemsVal v m).length ∧ (∀ i, i < n → ys[d + i]? = (elemsVal v m)[s + i]?) ∧
+      (∀ j, (j < d ∨ d + n ≤ j) → ys[j]? = (elemsVal v m)[j]?))
+    (copyProg_list (elemsVal v m) n s d hs hd hsafe)
+
+theorem algo_find_on_elements (v : View) (hwf : v.lay.WF) (hne : v.lay ≠ []) (hinj : v.Injective) (m : Mem α)
+    (p : α → Bool) :
+    ∃ m', (findProg p (elemsVal v m).length 0).runElems v m = some (m', (((elemsVal v m).findIdx p : Nat) : Int)) ∧
+      elemsVal v m' = elemsVal v m ∧ ∀ a, ¬ v.InImage a → m' a = m a :=
+  elems_on_views v hwf hne hinj m _ _ (fun ys => ys = elemsVal v m) ⟨_, findProg_list p (elemsVal v m), rfl⟩
+
+theorem algo_accumulate_on_elements (v : View) (hwf : v.lay.WF) (hne : v.lay ≠ []) (hinj : v.Injective) (m : Mem α)
+    (op : Int → α → Int) (init : Int) :
+    ∃ m', (accumulateProg op (elemsVal v m).length 0 init).runElems v m = some (m', (elemsVal v m).foldl op init) ∧
+      elemsVal v m' = elemsVal v m ∧ ∀ a, ¬ v.InImage a → m' a = m a :=
+  elems_on_views v hwf hne hinj m _ _ (fun ys => ys = elemsVal v m) ⟨_, accumulateProg_list op (elemsVal v m) init, rfl⟩
 
 /-! non-vacuity: the transposed 3×2 view of a 2×3 array at base 10 satisfies every hypothesis of `proxy_refines_seq` /
     `elements_refines_seq`, and insertion sort written against the interface sorts a list of independent rows -/
